@@ -5,7 +5,7 @@ the emitted regex's language of possible matches in all contexts equals the lang
 string by specs/dates.py, for all texts (SMT regex theory, both inclusions).  Subsets: sampled subsets are decided
 the same way (bounded in the subset, complete in the text).  Argument validation: see contracts (meta validation)."""
 import random
-from .. import lang, rx2smt as R
+from .. import lang, vcrun, rx2smt as R
 from ..common import native, SEED
 from specs.build import B
 from specs import dates
@@ -79,6 +79,11 @@ def run(rep, tier):
                        "evaluations": len(cases), "distinct_nontrivial": len({(tuple(fs), ext) for _, fs, ext in cases}),
                        "exhaustive": True, "rule": "distinct (format set, is_extensible)"})
     rep.extra["translator_crosscheck"] = xc
+    # 3. the validation block as a contract: raises InvalidArgumentValueException iff some selected format is not one
+    #    of the 48 documented ones, for None / any string / lists of up to 3 arbitrary strings (VCs); __date_formats
+    #    returns exactly the documented set (VC)
+    vcrun.run_functions(rep, ["pregex.meta.essentials.Date.__init__", "pregex.meta.essentials.Date.__date_formats"], tier)
+    rep.assumptions.append("validation VCs: lists of formats are enumerated up to length 3 with arbitrary contents")
     rep.functions["pregex.meta.essentials.Date.__init__"] = "postcondition on the emitted language, all texts, per format"
     rep.functions["pregex.meta.essentials.Date.__date_pre"] = "via Date.__init__ on each single format"
     rep.functions["pregex.meta.essentials.Date.__date_formats"] = "result compared with the documented list (exhaustive)"
